@@ -75,6 +75,9 @@ var literals = map[string]func() (interface{}, []string){
 	"shr-empty-slices-of-two-types": func() (interface{}, []string) {
 		return &zoo.TwoSlices{}, []string{"type=TwoSlices"}
 	},
+	"untyped-empty-list-twice": func() (interface{}, []string) {
+		return &zoo.Shr{S1: []int32{}, S2: []int32{}, P1: []*zoo.Inner{}, P2: []*zoo.Inner{}}, []string{"type=Shr", "untyped-lists"}
+	},
 	"shr-same-slice-twice": func() (interface{}, []string) {
 		arr := []int32{1, 2, 3}
 		in := &zoo.Inner{A: 5, S: "x"}
